@@ -126,4 +126,55 @@ def wholly (n : Nat) : List Rec → List Rec
   | [] => []
   | r :: rs => if encLen r ≤ n then r :: wholly (n - encLen r) rs else []
 
+/-! ### whole histories: appends, rotations and crash/recover rounds -/
+
+/-- crash + recovery as `db.go` performs it: the newest segment keeps only its first `n` bytes,
+then `wal.VerifyDir`, then `wal.Open` (resume the highest segment) -/
+def crashReopen (c : WalCfg) (crc : Bytes → Nat) (n : Nat) (segs : List Seg) : List Seg :=
+  openSegs (verifySegs c crc (cutHead n segs)).1
+
+inductive XOp where
+  | op (o : Op)
+  | crash (n : Nat)
+  deriving DecidableEq, Repr
+
+def stepX (c : WalCfg) (crc : Bytes → Nat) (segSize : Nat) (segs : List Seg) : XOp → List Seg
+  | .op o => stepOp crc segSize segs o
+  | .crash n => crashReopen c crc n segs
+
+def runX (c : WalCfg) (crc : Bytes → Nat) (segSize : Nat) (segs : List Seg) (xs : List XOp) : List Seg :=
+  xs.foldl (stepX c crc segSize) segs
+
+def appendedX : List XOp → List Rec
+  | [] => []
+  | .op (.append r) :: xs => r :: appendedX xs
+  | .op .rotate :: xs => appendedX xs
+  | .crash _ :: xs => appendedX xs
+
+/-- total encoded size of a record list -/
+def encLenAll : List Rec → Nat
+  | [] => 0
+  | r :: rs => encLen r + encLenAll rs
+
+/-- **Specification of a history**, on record lists only (no bytes, no decoder): the records per
+segment, newest segment first.  Append goes to the newest segment if it still fits, else opens a
+new one; rotate opens a new one; a crash at offset `n` keeps, of the newest segment, exactly the
+records wholly inside its first `n` bytes. -/
+def gStep (segSize : Nat) (g : List (List Rec)) : XOp → List (List Rec)
+  | .op (.append r) =>
+    match g with
+    | [] => []
+    | g0 :: gs => if encLenAll g0 + encLen r ≤ segSize then (g0 ++ [r]) :: gs else [r] :: g0 :: gs
+  | .op .rotate =>
+    match g with
+    | [] => []
+    | g0 :: gs => [] :: g0 :: gs
+  | .crash n =>
+    match g with
+    | [] => []
+    | g0 :: gs => wholly n g0 :: gs
+
+def gRun (segSize : Nat) (g : List (List Rec)) (xs : List XOp) : List (List Rec) :=
+  xs.foldl (gStep segSize) g
+
 end NoKV.Wal
